@@ -33,6 +33,33 @@ ENGINES = {
 }
 
 
+def replay(m, prop: str, path: str) -> int:
+    """Print the stored failing case and, where the engine can re-decide a single case,
+    run it again on the current working tree: exit 1 if it still fails, 0 if it no longer
+    does, 2 if this engine can only re-decide by running the whole check."""
+    import json
+    import shutil
+    d = json.load(open(path))
+    print(f"replay of {d.get('property')} clause={d.get('clause')} (found with seed {d.get('seed')}, tier {d.get('tier')})")
+    print(f"  witness: {json.dumps(d.get('witness'), sort_keys=True)}")
+    print(f"  detail : {str(d.get('detail'))[:1500]}")
+    fn = getattr(m, "replay_case", None)
+    if fn is None or d.get("case") is None:
+        print(f"  this engine re-decides cases only as part of the whole check: run ./check {prop} --tier {d.get('tier', 'quick')}")
+        return C.EXIT_MACHINERY
+    tmp = C.tmpdir()
+    try:
+        clause = fn(prop, d["case"], tmp)
+    finally:
+        shutil.rmtree(tmp, ignore_errors=True)
+    if clause:
+        print(f"VIOLATION property={prop} replay={path}")
+        print(f"  re-decided on the current tree: {clause}")
+        return 1
+    print("  re-decided on the current tree: the case is accepted")
+    return 0
+
+
 def main() -> int:
     ap = argparse.ArgumentParser()
     ap.add_argument("prop")
@@ -46,7 +73,7 @@ def main() -> int:
     try:
         m = importlib.import_module(f"harness.{mod}")
         if a.replay:
-            return getattr(m, "replay")(a.prop, a.replay)
+            return replay(m, a.prop, a.replay)
         return getattr(m, fn)(a.prop, a.tier)
     except C.MachineryError as ex:
         print(f"MACHINERY-FAILURE property={a.prop}: {ex}", file=sys.stderr)
